@@ -374,18 +374,41 @@ impl Prop for C12 {
                 }
             }
             out.count("every_layout_value_after_short_prefixes", nall);
+            // every value of the layout file directly after every other value (every mark, digit, sign and letter as the
+            // *last* character of the text as well, not only as the key pressed), followed by two backspaces
+            let mut npairs = 0u64;
+            for bits in 0..16u8 {
+                if !env.mine(bits as usize + 5) {
+                    continue;
+                }
+                let spec = spec_for(bits);
+                let Ok(s) = Sess::new(spec, &root) else { continue };
+                for first in n..alpha2.len() {
+                    for last in n..alpha2.len() {
+                        let steps = [Step::K(first), Step::K(last), Step::Bs, Step::Bs];
+                        npairs += 1;
+                        out.begin_case(|| case_json(&spec, &alpha2, &steps));
+                        run_steps(&s, &spec, &alpha2, &steps, out, &mut t);
+                    }
+                }
+            }
+            out.count("every_layout_value_after_every_layout_value", npairs);
         }
         // random longer histories with backspaces
         let mut rng = env.rng("c12-random");
         let nrand = env.tier.pick(600, 6000);
-        let mut cache: Vec<Option<Sess>> = (0..16).map(|_| None).collect();
+        // options the statement does not mention ride along in three quarters of the random histories: they must not matter
+        const BYSTANDERS: [u16; 4] = [0, O_ANSI, O_SQ | O_ENG, O_NUMPAD | O_PSUGG | O_ANSI];
+        let mut cache: Vec<Option<Sess>> = (0..64).map(|_| None).collect();
         for _ in 0..nrand {
             let bits = rng.below(16);
-            let spec = spec_for(bits as u8);
-            if cache[bits].is_none() {
-                cache[bits] = Sess::new(spec, &root).ok();
+            let by = rng.below(4);
+            let spec = CfgSpec { opts: spec_for(bits as u8).opts | BYSTANDERS[by], ..spec_for(bits as u8) };
+            let slot = bits * 4 + by;
+            if cache[slot].is_none() {
+                cache[slot] = Sess::new(spec, &root).ok();
             }
-            let Some(s) = cache[bits].as_ref() else { continue };
+            let Some(s) = cache[slot].as_ref() else { continue };
             for j in 0..200 {
                 // mostly short histories just beyond the exhaustive bound, some long ones
                 let len = if j % 8 == 0 { rng.range(10, 30) } else { rng.range(4, 7) };
